@@ -6,7 +6,7 @@ package main
 //	args  count <engine>  <number of parameters>  <number of arguments>
 //	args  decl  <type ID>
 //
-// `arg`: the script `fun main(a: T): [AnyStruct] { return [a.getType(), a.getType().isSubtype(of: Type<T>()), a] }`
+// `arg`: the script `fun main(a: T): [AnyStruct] { let copy = a; return [a.getType(), a.getType().isSubtype(of: Type<T>()), a] }`
 // runs on the real runtime with the JSON-CDC argument; struct / enum / resource types come from the
 // contract C deployed at 0x1 first.  Observation:
 //
@@ -724,6 +724,8 @@ func argsComposite(kind string, addr byte, contract, name string, names []string
 		return cadence.NewEnum(values).WithType(cadence.NewEnumType(loc, qid, nil, fields, nil))
 	case "contract":
 		return cadence.NewContract(values).WithType(cadence.NewContractType(loc, qid, fields, nil))
+	case "attachment":
+		return cadence.NewAttachment(values).WithType(cadence.NewAttachmentType(loc, qid, cadence.AnyStructType, fields, nil))
 	}
 	panic("composite kind " + kind)
 }
@@ -1008,6 +1010,143 @@ func (g *argsGen) badComposite(t *argsTy, depth int) cadence.Value {
 	return argsComposite(kind, addr, contract, name, names, vals)
 }
 
+
+// ---- directed families ----
+
+// a composite of the declared type `d` with exactly the declared fields, correctly typed, but with
+// the given JSON kind tag
+func (g *argsGen) taggedComposite(d *argsDecl, kind string) cadence.Value {
+	g.mut = 0
+	var names []string
+	var vals []cadence.Value
+	for _, f := range d.fields {
+		names = append(names, f[0])
+		vals = append(vals, g.val(argsParseTy(f[1]), 1))
+	}
+	return argsComposite(kind, 1, "C", d.name, names, vals)
+}
+
+type argsShape struct {
+	ty   string
+	wrap func(cadence.Value) cadence.Value
+}
+
+func argsStrKey(v cadence.Value) cadence.Value {
+	return cadence.NewDictionary([]cadence.KeyValuePair{{Key: cadence.String("k"), Value: v}})
+}
+
+// kindFamily: every JSON composite kind tag x every declared composite type; type ID and fields
+// are right, only the kind tag varies (the matching tag is the control).  Top level and nested in
+// optional / array / dictionary / AnyStruct / struct-field positions.
+func (g *argsGen) kindFamily(c *hx.Ctx) {
+	id := func(v cadence.Value) cadence.Value { return v }
+	n := 0
+	for i := range argsDecls {
+		d := &argsDecls[i]
+		self := argsComp(d.name)
+		shapes := []argsShape{
+			{"p AnyStruct", id},
+			{"va p AnyStruct", func(v cadence.Value) cadence.Value { return cadence.NewArray([]cadence.Value{cadence.NewInt(1), v}) }},
+			{"d p String p AnyStruct", argsStrKey},
+			{argsComp("U"), func(v cadence.Value) cadence.Value {
+				return argsComposite("struct", 1, "C", "U", []string{"any"}, []cadence.Value{v})
+			}},
+		}
+		if (d.kind == "struct" || d.kind == "enum") && d.name != "Fn" { // Fn is not an importable parameter type
+			shapes = append(shapes,
+				argsShape{self, id},
+				argsShape{"o " + self, func(v cadence.Value) cadence.Value { return cadence.NewOptional(v) }},
+				argsShape{"va " + self, func(v cadence.Value) cadence.Value { return cadence.NewArray([]cadence.Value{v}) }},
+				argsShape{"d p String " + self, argsStrKey},
+			)
+		}
+		for _, kind := range []string{"struct", "resource", "event", "enum", "contract", "attachment"} {
+			for si, sh := range shapes {
+				if (kind == "contract" || kind == "attachment") && si != 0 && si != 4 { // top level only
+					continue
+				}
+				n++
+				g.emitArgEng(c, sh.ty, sh.wrap(g.taggedComposite(d, kind)), n%2)
+			}
+		}
+	}
+}
+
+// arrayFamily: arrays of two or three elements in which exactly one (or the first two) is not
+// importable — first / middle / last — and the others are; for parameter types that admit the
+// array statically ([AnyStruct], AnyStruct, constant-sized, optional elements, nested arrays,
+// struct fields, dictionary values).
+func (g *argsGen) arrayFamily(c *hx.Ctx) {
+	ref := cadence.NewReferenceType(cadence.UnauthorizedAccess, cadence.IntType)
+	bads := []func() cadence.Value{
+		func() cadence.Value { return cadence.NewCapability(1, cadence.Address{0, 0, 0, 0, 0, 0, 0, 1}, ref) },
+		func() cadence.Value {
+			return argsComposite("struct", 1, "C", "Fn", []string{"f"}, []cadence.Value{cadence.NewOptional(nil)})
+		},
+		func() cadence.Value {
+			return argsComposite("event", 1, "C", "Ev", []string{"x"}, []cadence.Value{cadence.NewInt(1)})
+		},
+		func() cadence.Value {
+			return argsComposite("resource", 1, "C", "R", []string{"uuid", "id"}, []cadence.Value{cadence.NewUInt64(1), cadence.NewInt(2)})
+		},
+		func() cadence.Value {
+			return cadence.NewFunction(cadence.NewFunctionType(cadence.FunctionPurityImpure, nil, nil, cadence.VoidType))
+		},
+		func() cadence.Value { return argsComposite("contract", 1, "C", "C", nil, nil) },
+	}
+	good := func(i int) cadence.Value {
+		switch i % 3 {
+		case 0:
+			return cadence.NewInt(1)
+		case 1:
+			return cadence.String("a")
+		}
+		return argsComposite("struct", 1, "C", "S", []string{"x", "y"}, []cadence.Value{cadence.NewInt(3), cadence.String("b")})
+	}
+	layouts := []string{"bg", "gb", "gbg", "bgg", "bbg", "ggb"}
+	id := func(v cadence.Value) cadence.Value { return v }
+	arr1 := func(v cadence.Value) cadence.Value { return cadence.NewArray([]cadence.Value{v}) }
+	arr2 := func(v cadence.Value) cadence.Value {
+		return cadence.NewArray([]cadence.Value{v, cadence.NewArray([]cadence.Value{cadence.NewInt(1)})})
+	}
+	n := 0
+	for bi, bad := range bads {
+		for li, lay := range layouts {
+			vs := make([]cadence.Value, len(lay))
+			for i, ch := range lay {
+				if ch == 'b' {
+					vs[i] = bad()
+				} else {
+					vs[i] = good(i + li)
+				}
+			}
+			mk := func() cadence.Value { return cadence.NewArray(append([]cadence.Value{}, vs...)) }
+			shapes := []argsShape{
+				{"va p AnyStruct", id},
+				{"p AnyStruct", id},
+			}
+			if bi < 3 && (lay == "bg" || lay == "gbg" || lay == "bbg") {
+				shapes = append(shapes,
+					argsShape{"ca " + strconv.Itoa(len(lay)) + " p AnyStruct", id},
+					argsShape{"va o p AnyStruct", id},
+					argsShape{"va va p AnyStruct", arr1},
+					argsShape{"va va p AnyStruct", arr2},
+					argsShape{"o va p AnyStruct", func(v cadence.Value) cadence.Value { return cadence.NewOptional(v) }},
+					argsShape{argsComp("U"), func(v cadence.Value) cadence.Value {
+						return argsComposite("struct", 1, "C", "U", []string{"any"}, []cadence.Value{v})
+					}},
+					argsShape{"d p String p AnyStruct", argsStrKey},
+					argsShape{"d p String va p AnyStruct", argsStrKey},
+				)
+			}
+			for _, sh := range shapes {
+				n++
+				g.emitArgEng(c, sh.ty, sh.wrap(mk()), n%2)
+			}
+		}
+	}
+}
+
 func argsEncode(v cadence.Value) (b []byte, ok bool) {
 	defer func() {
 		if r := recover(); r != nil {
@@ -1049,6 +1188,19 @@ func (g *argsGen) emitArg(c *hx.Ctx, ty string, v cadence.Value) {
 	c.Emit("args", "arg", eng, ty, string(b), argsDecodeSx(b))
 }
 
+// emitArgEng emits the argument as it is (no JSON damage) for the given engine
+func (g *argsGen) emitArgEng(c *hx.Ctx, ty string, v cadence.Value, eng int) {
+	b, ok := argsEncode(v)
+	if !ok {
+		return
+	}
+	b = []byte(strings.TrimSpace(string(b)))
+	if strings.ContainsAny(string(b), "\t\n\r") || !utf8.Valid(b) {
+		return
+	}
+	c.Emit("args", "arg", []string{"interp", "vm"}[eng%2], ty, string(b), argsDecodeSx(b))
+}
+
 func genArgs(c *hx.Ctx) {
 	g := &argsGen{r: c.Rng}
 	for _, d := range argsDecls {
@@ -1070,6 +1222,8 @@ func genArgs(c *hx.Ctx) {
 		g.mut = 0
 		g.emitArg(c, ty, g.val(argsParseTy(ty), 2))
 	}
+	g.kindFamily(c)
+	g.arrayFamily(c)
 	for c.Emitted() < c.N {
 		depth := 1 + g.r.Intn(3)
 		ty := g.ty(depth)
@@ -1230,7 +1384,7 @@ func execArgs(op []string) string {
 		}
 		t := argsParseTy(op[3])
 		ts := t.cadence()
-		src := "import C from 0x1\naccess(all) fun main(a: " + ts + "): [AnyStruct] { return [a.getType(), a.getType().isSubtype(of: Type<" + ts + ">()), a] }"
+		src := "import C from 0x1\naccess(all) fun main(a: " + ts + "): [AnyStruct] { let copy = a; return [a.getType(), a.getType().isSubtype(of: Type<" + ts + ">()), a] }"
 		env := argsGetEnv()
 		defer argsPutEnv(env)
 		out := env.Script(src, [][]byte{[]byte(op[4])}, op[2] == "vm")
